@@ -1006,3 +1006,43 @@ func (pc *pCtx) d2ContextlessMethods(only string) {
 		}
 	}
 }
+
+// t1Promoted: a type contract may say `promoted m1 m2 ... | Cxx,Cyy`: these methods of the type are the ones promoted
+// from an embedded field (subscriberImpl's Wait, Add, AddUnsubscribable are its Subscription's). Declaring one of them on
+// the type itself shadows the embedded method everywhere the type is used - a `Wait` with a fast path on the status word
+// returns before the finalizers have run.
+func (pc *pCtx) t1Promoted(only string) {
+	var names []string
+	for n := range pc.kc.types {
+		names = append(names, n)
+	}
+	sort.Strings(names)
+	for _, n := range names {
+		ts := pc.kc.types[n]
+		if ts == nil || ts.Block == nil {
+			continue
+		}
+		for _, c := range ts.Block.all("promoted") {
+			txt := c.Text
+			props := []string{"C03", "C06", "C14", "C15"}
+			if i := strings.Index(txt, "|"); i >= 0 {
+				props = strings.FieldsFunc(txt[i+1:], func(r rune) bool { return r == ',' || r == ' ' })
+				txt = txt[:i]
+			}
+			fns := pc.kc.w.allFuncs(ts.Block.Pkg)
+			for _, m := range strings.Fields(txt) {
+				if only != "" && !strings.Contains(n+"."+m, only) {
+					continue
+				}
+				declared := ""
+				for _, key := range []string{"(*" + n + ")." + m, "(" + n + ")." + m} {
+					if fn := fns[key]; fn != nil && fn.Synthetic == "" && fn.Blocks != nil {
+						declared = fmt.Sprintf("%s is declared at %s", key, pc.pos(fn.Pos()))
+					}
+				}
+				pc.add(props, fmt.Sprintf("T1/%s/promoted:%s", n, m),
+					"the method is the one promoted from the embedded field, not a declaration of the type's own that shadows it", declared == "", declared, "")
+			}
+		}
+	}
+}
